@@ -165,6 +165,20 @@ def p1_reader_path(k, suffix):
     return path
 
 
+def p1_overflow_path(n_prefix, k):
+    """unfinished readout past the 8191-octet guard (first chunk), then k free octets, a line end and clean readouts in further chunks"""
+    def path(eng, ctx):
+        prefix = PC.long_unfinished_readout(n_prefix)
+        fr = [sym_octet(f"x{i}") for i in range(k)]
+        clean = [ref_p1.build_readout(b"/ADN9 6534", [b"1-0:1.7.0(0001.727*kW)"]), ref_p1.build_readout(b"/LGF5E360", [b"1-0:32.7.0(233.9*V)"], checksum=False),
+                 ref_p1.build_readout(b"/ADN9 6534", [b"1-0:2.7.0(0000.000*kW)"])]
+        tail = fr + [13, 10] + [c for r in clean for c in r]
+        stream = SBytes(prefix + tail)
+        a = len(prefix)
+        run_reader(ctx, "p1", stream, [(a,), (a, a + k + 2), (a // 2, a, a + k + 2 + len(clean[0]))], f"p1 reader: unfinished readout of {a} octets, then noise and clean readouts", expect=clean[1:])
+    return path
+
+
 def proto_path(mode, readers, k):
     def path(eng, ctx):
         which = eng.pick(2)
@@ -195,6 +209,10 @@ def scenarios(tier):
     out.append(Scenario(f"p1 reader + readout accessors: six noise families, {k} free octets", p1_reader_path(k, False),
                         bounds={"families": "free | '/'+free+LF | ident+free+LF | ident+data+'!'+free+LF | '!' inside ident line | free in data and after '!'", "free_octets": k, "splittings": "every single cut"},
                         domains=("p1",), frontier=6, assumptions=A, replay_cap=60))
+    for n in ((8300,) if q else (7900, 8191, 8300, 20000)):
+        out.append(Scenario(f"p1 reader: unfinished readout of ~{n} octets across the buffer guard, then 2 free octets + clean readouts", p1_overflow_path(n, 2),
+                            bounds={"prefix_octets": n, "free_octets": 2, "suffix": "3 clean readouts in later chunks; 2nd and 3rd must be delivered, nothing may raise"}, domains=("p1",), frontier=3, workers=4,
+                            assumptions=A, replay_cap=20))
     for mode in ("payload", "message"):
         out.append(Scenario(f"{mode} protocol with [HDLC, P1] candidates, {k} free octets", proto_path(mode, ("hdlc", "p1"), k),
                             bounds={"candidates": ["hdlc", "p1"], "free_octets": k, "streams": "the six P1 noise families and a genuine HDLC frame with free octets in length/payload/FCS/address followed by a clean frame", "splittings": "one call, middle cut, late cut"},
